@@ -13,7 +13,11 @@
      - requires tables read back = specification rows (every column) and evaluates RowsEqualCanonical
        (tables = flattened receipts of the node's canonical chain) as an invariant on every state,
      - requires every query result = Filter(specification rows, ...) = ListFilter(canonical list, ...),
-     - requires status code and rows of every API call = ApiCall(...) below (transcribed from the handlers).          *)
+     - requires status code and rows of every API call = ApiCall(...) below (transcribed from the handlers),
+     - follows a period with --skip-logs (ImportNoLog), a cancelled syncLogDB (the height it stopped at is inferred from
+       the tables) and the completing restart on an on-disk log db, and the refusals at the bounds of the sequence packing.
+   An Error event (a call into thor returned an unexpected error or panicked: failed import, failed restart, failed read)
+   matches no action: the stream is rejected there.                                                                  *)
 EXTENDS LogIndex, Json, TraceLib
 
 Trace == LoadTrace("trace.ndjson")
@@ -26,7 +30,12 @@ TrGenesis == Cfg.genesis
 TrPar(b) == Blk[b].p
 TrNum(b) == Blk[b].n
 TrTime(b) == Blk[b].t
-TrTxs(b) == Blk[b].txs
+\* receipts: dense (a sequence, index = tx index + 1) or sparse (only the transactions that have outputs, "at" = their
+\* 1-based positions) for synthetic blocks with tens of thousands of empty receipts
+TrTxs(b) == LET f == Blk[b] IN
+            IF "at" \in DOMAIN f
+            THEN [i \in {f.at[k] : k \in DOMAIN f.at} |-> f.txs[CHOOSE k \in DOMAIN f.at : f.at[k] = i]]
+            ELSE f.txs
 TrIdLess(x, y) == Blk[x].ord < Blk[y].ord
 TrMaxBlockNumber == Cfg.maxBlockNumber
 
@@ -52,7 +61,7 @@ TInit == /\ HWMInit /\ Cfg.e = "Config" /\ Init /\ l = 2
 
 \* a fresh node: repository = {genesis}, genesis logs written
 TReset == /\ IsEv("Reset")
-          /\ stored' = {Genesis} /\ best' = Genesis /\ up' = TRUE
+          /\ stored' = {Genesis} /\ best' = Genesis /\ up' = TRUE /\ logging' = TRUE
           /\ evRows' = RowsOf(Genesis, "E") /\ trRows' = RowsOf(Genesis, "T")
           /\ Observed
 TImport == /\ IsEv("Import") /\ Known(Ev.b)
@@ -70,9 +79,30 @@ TCrash == /\ IsEv("Crash") /\ Known(Ev.b)
           /\ Observed
 TRestart == /\ IsEv("Restart") /\ ~up /\ Resync
             /\ Observed
+\* Writer.Write refused the block (a position does not fit the sequence packing); the caller rolled back
+TWriteErr == /\ IsEv("WriteErr") /\ Known(Ev.b) /\ Importable(Ev.b) /\ WriteErr(Ev.b)
+             /\ UNCHANGED vars
+             /\ Observed
+\* the process is stopped between two imports (its log db file is closed: nothing to read)
+TStop == IsEv("Stop") /\ Crash
+\* ... and started with --skip-logs: the repository moves on, the log db under test is not even opened
+TStartSkipLogs == IsEv("StartSkipLogs") /\ StartSkipLogs
+TImportNoLog == /\ IsEv("ImportNoLog") /\ Known(Ev.b)
+                /\ ImportSkipLogs(Ev.b, Ev.trunk)
+                /\ Ev.best = best'
+\* start-up with logs, syncLogDB cancelled on its way (after the block of SOME height j - the tables tell which)
+TSyncCancel == /\ IsEv("SyncCancel")
+               /\ \E j \in 1..Num(best) : ResyncCancelled(j)
+               /\ Observed
+\* bounds of the sequence packing probed on a throw-away log db: a block whose only transaction (index Ev.ti) carries
+\* Ev.count events; the write fails iff the last log index does not fit; otherwise the newest row reads back as logged
+TPack == /\ IsEv("Pack")
+         /\ UNCHANGED vars
+         /\ Ev.err = ~SeqOK(<<Ev.n, Ev.ti, Ev.count - 1>>)
+         /\ (~Ev.err => Ev.last = <<Ev.n, Ev.ti, Ev.count - 1>> /\ Ev.rows = Ev.count)
 
 \* ---- logdb queries
-TQ == /\ IsEv("Q") /\ up
+TQ == /\ IsEv("Q") /\ up /\ logging
       /\ UNCHANGED vars
       /\ LET R == RowsOfKind(Ev.k) IN
          IF RangeErr(Ev.range) THEN Ev.err
@@ -109,7 +139,7 @@ ApiCall(R, kind, ev) ==
               lim == IF ev.hasOpt /\ ev.opt.lim # <<>> THEN ev.opt.lim[1] ELSE Cfg.maxLimit + 1
               res == FilterRows(R, kind, ev.crit, ConvertRange(ev.hasRange, ev.range), ev.order, <<off, lim>>)
           IN IF Len(res) > Cfg.maxLimit THEN [status |-> 403, rows |-> <<>>] ELSE [status |-> 200, rows |-> res]
-TApi == /\ IsEv("Api") /\ up
+TApi == /\ IsEv("Api") /\ up /\ logging
         /\ UNCHANGED vars
         /\ LET a == ApiCall(RowsOfKind(Ev.k), Ev.k, Ev) IN
            /\ Ev.status = a.status
@@ -117,7 +147,9 @@ TApi == /\ IsEv("Api") /\ up
            /\ (Ev.hasOpt => Rows(Ev.res) = a.rows)        \* without options the response carries no positions
 
 TNext == /\ l' = l + 1
-         /\ (TReset \/ TImport \/ TIgnore \/ TCrash \/ TRestart \/ TQ \/ TApi)
+         /\ (TReset \/ TImport \/ TIgnore \/ TCrash \/ TRestart \/ TQ \/ TApi
+             \/ TWriteErr \/ TStop \/ TStartSkipLogs \/ TImportNoLog \/ TSyncCancel \/ TPack)
+         \* an Error event (a call into thor code returned an unexpected error or panicked) matches no action
 TSpec == TInit /\ [][TNext]_tvars
 
 Progress == HWM(l)
